@@ -61,6 +61,15 @@ KINDS: Dict[str, Any] = {
 }
 
 
+# integer literals that do not fit a C++ int (abs >= 2**31): written as they are (a C++ long), declared int
+WIDE_LITERALS: List[Any] = [["int", 2**31], ["int", 2**32], ["int", 10**10],
+                            ["un", "USub", ["int", 2**32]], ["un", "USub", ["int", 10**10]], ["un", "USub", ["int", 2**31 + 1]]]
+
+
+def is_wide(n) -> bool:
+    return n[0] == "int" and abs(n[1]) >= 2**31
+
+
 def render(x, leaves: Dict[str, str]) -> str:
     t = x[0]
     if t == "leaf":
@@ -243,7 +252,14 @@ def samples_for(x) -> List[Tuple[float, float, int, int]]:
     return SAMPLES_NONNEG if restricted else SAMPLES_NONNEG + SAMPLES_SIGNED
 
 
+def huge_pow(x) -> bool:
+    """an int ** with a wide exponent: Python would build an astronomically large integer"""
+    return contains(x, lambda n: n[0] == "bin" and n[1] == "Pow" and contains(n[3], is_wide) and py_type(n[2]) != "float")
+
+
 def py_value(x, s, acc=None):
+    if huge_pow(x):
+        return None
     ns = {"FL": s[0], "DB": s[1], "IT": s[2], "CNT": s[3], "ACC": acc}
     try:
         v = eval(render(x, LEAF_PY), {"__builtins__": {}}, ns)  # noqa: S307 - generated arithmetic only
@@ -356,6 +372,23 @@ def table_rows() -> List[Dict[str, Any]]:
         for e1, e2 in ((["leaf", "it"], ["int", 3]), (["int", 7], ["leaf", "it"]), (["leaf", "it"], ["leaf", "count"]),
                        (["int", 0], ["leaf", "it"]), (["leaf", "count"], ["int", 1]), (["leaf", "it"], ["leaf", "fl"])):
             rows.append({"cls": "binop", "label": f"{op} extra", "expr": ["bin", op, e1, e2]})
+    # wide integer literals on both sides of every operator, against every numeric kind
+    partners = [["leaf", "count"], ["leaf", "it"], ["leaf", "fl"], ["leaf", "db"], ["int", 3]]
+    for op in LISTED:
+        for w in WIDE_LITERALS:
+            for q in partners:
+                rows.append({"cls": "wide-literal", "label": f"{op} any wide", "expr": ["bin", op, q, w]})
+                rows.append({"cls": "wide-literal", "label": f"{op} wide any", "expr": ["bin", op, w, q]})
+        rows.append({"cls": "wide-literal", "label": f"{op} wide wide", "expr": ["bin", op, WIDE_LITERALS[1], WIDE_LITERALS[0]]})
+    # Python cannot evaluate n ** 4294967296 on ints in reasonable time: those rows go through the correspondence only
+    for op in CMPS:
+        for w in WIDE_LITERALS[:4]:
+            rows.append({"cls": "wide-literal", "label": f"{op} wide", "expr": ["cmp", op, ["leaf", "count"], w]})
+            rows.append({"cls": "wide-literal", "label": f"{op} wide", "expr": ["cmp", op, w, ["leaf", "db"]]})
+    for w in WIDE_LITERALS:
+        rows.append({"cls": "wide-literal", "label": "alone", "expr": w})
+        rows.append({"cls": "wide-literal", "label": "nested", "expr": ["bin", "Div", ["bin", "Add", ["leaf", "it"], w], ["int", 2]]})
+        rows.append({"cls": "wide-literal", "label": "nested", "expr": ["bin", "Mult", ["bin", "Div", ["leaf", "count"], w], ["leaf", "db"]]})
     for op in ("UAdd", "USub", "Not", "Invert"):
         for k, e in list(KINDS.items()) + [("int_method", ["leaf", "it"])]:
             rows.append({"cls": "unary", "label": f"{op} {k}", "expr": ["un", op, e]})
@@ -477,7 +510,7 @@ def check(tier: str, seed: int, t0: float, build: core.BuildStatus) -> int:
                 queue_oracle("value", backend, x, obs, obs["expr"], obs["type"], {"replay": replay})
 
     # ---- 2. conditionals ----
-    arms = list(KINDS.items()) + [("int_method", ["leaf", "it"])]
+    arms = list(KINDS.items()) + [("int_method", ["leaf", "it"]), ("wide_literal", ["int", 2**32])]
     tests = [["cmp", "Gt", ["leaf", "it"], ["int", 2]], ["leaf", "it"], ["un", "Not", ["cmp", "Lt", ["leaf", "db"], ["int", 3]]]]
     for ti, tst in enumerate(tests if thorough else tests[:2]):
         for kb, b in arms:
@@ -519,6 +552,7 @@ def check(tier: str, seed: int, t0: float, build: core.BuildStatus) -> int:
                ("acc/2", ["bin", "Div", ["leaf", "acc"], ["int", 2]], "double"),
                ("acc+fl*db", ["bin", "Add", ["leaf", "acc"], ["bin", "Mult", ["leaf", "fl"], ["leaf", "db"]]], "double"),
                ("it", ["leaf", "it"], "int"), ("fl", ["leaf", "fl"], "float"),
+               ("acc/2**32", ["bin", "Div", ["leaf", "acc"], ["int", 2**32]], "double"),
                ("acc+(db>1)", ["bin", "Add", ["leaf", "acc"], ["cmp", "Gt", ["leaf", "db"], ["int", 1]]], "int")]
     for sk, sd in seeds:
         for uk, up, widest in updates:
@@ -594,15 +628,19 @@ def check(tier: str, seed: int, t0: float, build: core.BuildStatus) -> int:
                     pv = py_value(x, s)
                 if pv is None or si not in r:
                     continue
-                if isinstance(pv, int) and not isinstance(pv, bool) and abs(pv) > 2**31 - 1:
-                    continue
+                if isinstance(pv, int) and not isinstance(pv, bool) and abs(pv) > 2**31 - 1 and not contains(x, is_wide):
+                    continue   # int overflow from small operands: outside the property (32-bit ints assumed)
                 if isinstance(pv, float) and (pv != pv or abs(pv) == float("inf")):
                     continue
                 oracle_stats["values_compared"] += 1
                 tag, cv = r[si]
                 sample = {"fl": s[0], "db": s[1], "it": s[2], "count": s[3]}
                 if not same_number(pv, cv, tol):
-                    cls = next((c for c in ("int-true-division", "unary-minus-bool") if c in fs), "conditional-value" if p["kind"] == "ifexp" else "wrong-value")
+                    if p["declared"] == "int" and contains(x, is_wide):
+                        # the unchanged code declares int whatever a wide literal makes of the value (C18's finding)
+                        cls = "wide-int-literal-declared-int"
+                    else:
+                        cls = next((c for c in ("int-true-division", "unary-minus-bool") if c in fs), "conditional-value" if p["kind"] == "ifexp" else "wrong-value")
                     viol(cls, f"{obs['query']} on {backend} with {sample}: generated code computes {cv} ({p['declared']}), Python computes {pv!r}",
                          {**replay, "sample": sample, "python": repr(pv), "generated": cv})
                     break
@@ -619,7 +657,8 @@ def check(tier: str, seed: int, t0: float, build: core.BuildStatus) -> int:
     oc.distinct_nontrivial = len(distinct)
     oc.exhaustive = True
     oc.rule = ("exhaustive: {+,-,*,/,%,**,//} x 5x5 operand kinds (int literal, Count(), float method, double method, comparison result) + extra int-method rows; "
-               "{+,-,not,~} x 6 kinds; 6 comparisons x 5x5; conditionals over 6x6 arm kinds; Aggregate seeds x 10 updates; Sum/Count/Min/Max x 3 element types; "
+               "wide integer literals (2**31, 2**32, 10**10 and negatives) on both sides of every operator against Count()/int/float/double/small literal, in comparisons, alone and nested; "
+               "{+,-,not,~} x 6 kinds; 6 comparisons x 5x5; conditionals over 6x6 arm kinds; Aggregate seeds x 11 updates; Sum/Count/Min/Max x 3 element types; "
                f"plus {n_random} random nested expressions (20% with unsupported operators / boolean operands / float %); each on 3 backends. "
                "distinct_nontrivial = distinct expressions with at least one operator (by structure)")
     oc.samples = [render(r["expr"], LEAF_QUERY) for r in rows[:3]] + [render(r["expr"], LEAF_QUERY) for r in rows[-4:]]
